@@ -59,7 +59,8 @@ check("C16", "DESIGN.md 5/C16",
       "TLC proves for every token string in the bound that the compiled rows equal the arithmetic meaning of the written expression on "
       "the points 0, e_1..e_n (which determines an affine map) and that non-linear specifications are rejected; the real "
       "LinearConstraints.from_spec (string, list, mapping forms, and ModelSpec.get_linear_constraints) is compared exactly on every case, "
-      "and random deep expressions recorded from the real code are validated by TLC.",
+      "and random deep expressions recorded from the real code are validated by TLC. Runs of adjacent signs are read sign by sign by the reference; the design "
+      "error 'a run is negative if it holds any minus' is refuted by TLC.",
       "Trusted: conversion of the float (A, b) to fractions with denominator <= 1e6; small literals keep Rat.tla inside 32-bit integers.")
 
 check("C20", "DESIGN.md 5/C20",
@@ -68,7 +69,9 @@ check("C20", "DESIGN.md 5/C20",
       "TLC proves for every formula in the bound that differentiation preserves the number and order of terms, that every multilinear "
       "term obeys the exact finite-difference law on integer rows (h = 1, 2) and that successive differentiation composes; every case is "
       "executed by the real code: term lists compared, derivative terms materialised and compared with the model's exact columns and "
-      "with finite differences of the materialised original term.",
+      "with finite differences of the materialised original term. Further alphabets: a column named like a transform, a python factor and a quoted name as "
+      "factors; structured formulas of up to 3 parts in four spellings (each part differentiated with respect to the same tuple); OutputLaw states the property "
+      "on the output alone; two design errors (zero unless the variable is a required variable; only the first part differentiated) are refuted by TLC.",
       "Trusted: materialisation of a single numeric term; use_sympy=True is out of scope (sympy is not installed).")
 
 check("C19", "DESIGN.md 5/C19",
@@ -77,7 +80,9 @@ check("C19", "DESIGN.md 5/C19",
       "TLC checks the container laws on every tree of a bounded shape family (map visits leaves once in flatten order and preserves shape, "
       "simplify idempotent and leaf-preserving, update/merge as dictionary merges) and on every operation history up to the bound "
       "(top-first merge with writes confined to the private layer as an action property, ordering invariant, multiset law and list law of the "
-      "formula sequence under each ordering mode none / degree / sort; random behaviours of 8 operations by tlc -simulate); each case is replayed into real Structured / LayeredMapping / SimpleFormula objects and alpha(object) compared.",
+      "formula sequence under each ordering mode none / degree / sort; random behaviours of 8 operations by tlc -simulate); each case is replayed into real Structured / LayeredMapping / SimpleFormula objects and alpha(object) compared. "
+      "LayeredHeap.tla models layered mappings as an object graph (layers are references): histories of set / del / derive / join / grow on any object, every "
+      "object then read (MergeLaw, LookupLaw, FrameLaw); the design error of copying a nested mapping at construction is refuted by TLC.",
       "Trusted: gamma/alpha between abstract values and the objects (alpha(gamma(t)) = t is itself checked). Bounded: shape family of "
       "depth 3, histories of <= 2-4 operations over 3 keys / 7 terms x 3 ordering modes x 4 starting formulas.")
 
@@ -87,7 +92,8 @@ check("C02", "DESIGN.md 5/C02",
       "through model_matrix for the three outputs",
       "TLC proves on every case in the bound that without rank reduction each term is the complete Kronecker product of the full "
       "encodings, that the intercept is a column of ones and that the literal scale is carried exactly once; the real model_matrix is "
-      "compared name for name and cell for cell with the matrix the specification computes, for pandas, numpy and sparse output.",
+      "compared name for name and cell for cell with the matrix the specification computes, for pandas, numpy and sparse output; the same numbers held "
+      "in the narrowest integer dtype must give the same matrix on each output type.",
       "Trusted: gamma (abstract frame -> DataFrame) and alpha (asarray/toarray). Verdict is equality with the model's matrix; under rank "
       "reduction this also fixes the reduced/full choice to the greedy one the model transcribes.")
 
@@ -98,7 +104,8 @@ check("C03", "DESIGN.md 5/C03",
       "TLC proves that for every sequence of distinct terms in the bound (any order, intercept on/off, clustering on/off) the emitted "
       "scoped terms partition the pure-interaction pieces, i.e. independent columns and unchanged span on a crossed design; for every "
       "enumerated sequence the real code is run on a crossed frame in general position, its observed structure is accepted by TLC iff it is "
-      "such a partition (any valid assignment passes) and numpy confirms rank(X) = ncols and span equality with the unreduced matrix, "
+      "such a partition (any valid assignment passes) and numpy confirms rank(X) = ncols and span equality with the unreduced matrix "
+      "(a valid recorded structure whose columns fail this is reported: the columns do not realise the structure), "
       "under 9 contrast options and varying level counts.",
       "Trusted: the linear-algebra lemma (checked numerically on every replayed case: a disagreement between lemma and numpy is a "
       "machinery error), numpy.linalg.matrix_rank on small integer matrices.")
@@ -109,7 +116,10 @@ check("C10", "DESIGN.md 5/C10",
       "TLC proves on every enumerated case that per-term ranges are contiguous, disjoint, in structure order and cover all columns; for "
       "each case the real ModelSpec is queried (column_names, column_indices, term_indices, term_slices, get_slice, get_term_indices, "
       "get_column_indices, variable_indices, get_variable_indices, subset) by Term object, by printed form and by column name and compared "
-      "with the model's names and ranges; subset specs are rebuilt and compared with the parent's columns.",
+      "with the model's names and ranges; subset specs are rebuilt and compared with the parent's columns. Metadata.tla models python-expression "
+      "factors (operand, positional argument, keyword argument, method receiver) and center() nested inside larger factors with its recorded state: "
+      "NonInterference (a column outside VarIdx(v) does not react to v) and SubsetRegenerates (on training and on follow-up data) are model-checked, "
+      "two design errors refuted, and every case replayed (variable indices for every data column, parent and every subset on both data sets).",
       "Trusted: gamma/alpha of the materializer family. A subset is rebuilt with the parent's dropped rows supplied (rows are C06's business).")
 
 check("C06", "DESIGN.md 5/C06",
@@ -120,6 +130,7 @@ check("C06", "DESIGN.md 5/C06",
       "null; every case is executed through sugar / Formula / ModelSpec(s) with and without call-time overrides / materializer object / the narwhals materializer as an option override, on default, "
       "string, unsorted and non-unique indexes, for pandas / numpy / sparse, comparing cells, index label sequence, the caller's set and "
       "the exception.",
+      "Nulls of numeric columns are also realised as pd.NA of nullable extension arrays (Int64, Float64). "
       "Trusted: gamma/alpha of the materializer family. hashed() is treated as an opaque factor without nulls (rows, index and drop set are "
       "compared, not its cells). One formula draws a categorical factor from an array of strings held by the caller's context.")
 
@@ -129,10 +140,11 @@ check("C07", "DESIGN.md 5/C07",
       "TLC proves for every structured formula x null pattern x policy x caller set in the bound that all parts share the kept rows and "
       "that each part equals the part built alone with the joint drop set; the real code is run on every case: nested shape of the result "
       "and of its model_spec, rows and cells of each part against the model, the separately built part, and regeneration of each part by "
-      "its own spec, for the three outputs. FormulaForms.tla defines what every specification form (string, list of strings, tuple, keyword "
+      "its own spec and of the whole result by the attached structured spec at once, for the three outputs; two formulas share factors between parts "
+      "under another literal scale / in another written order. FormulaForms.tla defines what every specification form (string, list of strings, tuple, keyword "
       "structure, nested) denotes through the main / nested parser; every form of a bounded family is built with Formula(...) and by "
       "attribute assignment and compared with the model's tree of term lists.",
-      "Trusted: gamma/alpha of the materializer family; the mirror of the 9 structured formulas between MC_Missing and the harness.")
+      "Trusted: gamma/alpha of the materializer family; the mirror of the 13 structured formulas between MC_Missing and the harness.")
 
 check("C05", "DESIGN.md 5/C05",
       "one TLA+ definition of the matrix (Materialize.tla, evaluated by TLC on every enumerated case) of which entry point, output type and "
@@ -140,13 +152,15 @@ check("C05", "DESIGN.md 5/C05",
       "Contrasts.tla on all combinations; TLA+ state machine Registry.tla of the materializer registry / dispatch replayed into the real metaclass",
       "the specification defines the result as a function of formula, data and options only; each enumerated case is executed through "
       "sugar / Formula / ModelSpec / materializer class / the spec attached to an earlier result (method and top-level function) / a materializer object that has already produced another output, for pandas / numpy / sparse output, with the pandas materializer, narwhals on the "
-      "pandas frame and narwhals on a pyarrow table (6 rotating combinations per case in the quick tier, all 63 in the thorough tier) and "
+      "pandas frame and narwhals on a pyarrow table (6 rotating combinations per case in the quick tier, all 72 in the thorough tier) and "
       "every result must equal the specification's matrix, hence all agree. Every contrast coding enumerated by MC_Contrasts (exact "
-      "rationals) is built as C(g, contr...) + x with and without an intercept on all 63 combinations. Registry.tla: every sequence of "
+      "rationals) is built as C(g, contr...) + x with and without an intercept on all 72 combinations. Registry.tla: every sequence of "
       "<= 4 / 5 materializer class definitions (names, explicit input types, outputs, precedence, SUPPORTS_INPUT predicates) with the laws "
       "sorted lists / sound / complete / priority / monotone; each history is replayed by defining real subclasses (registry saved and "
       "restored) and every for_data / for_materializer query compared (also random sequences of 7 definitions by tlc -simulate); the shipped registry "
-      "is queried for pandas, recarray and Arrow inputs. Structured formulas with missing data (MC_Missing) are built on rotating combinations.",
+      "is queried for pandas, recarray and Arrow inputs. Structured formulas with missing data (MC_Missing) are built on rotating combinations. Entry points "
+      "include a materializer object that has already produced another output and an un-materialized spec object already used on other data; int8 columns "
+      "are replayed on the rotation against the same numbers held as float64.",
       "Trusted: gamma including pyarrow.Table.from_pandas, alpha. Index labels are C06's business and are not compared here.")
 
 check("C08", "DESIGN.md 5/C08",
@@ -155,7 +169,8 @@ check("C08", "DESIGN.md 5/C08",
       "TLC evaluates the expected matrix for a column of each of 22 dtype tags (text -> categorical with sorted levels, categorical dtype -> "
       "declared order incl. unobserved levels, numeric incl. bool -> pass-through) and proves every expected cell is an integer; each case is "
       "realised with all available constructors on the pandas materializer, narwhals on the same frame and narwhals on a pyarrow table, for "
-      "the three outputs: names and cells equal the model and every observed cell is a number.",
+      "the three outputs, through the top-level function and through one materializer object used for every output in turn: names and cells equal the "
+      "model and every observed cell is a number.",
       "Trusted: the constructor list probed at run time; 'a number' = numbers.Number / numpy.number / numpy.bool_ per cell.")
 
 check("C04", "DESIGN.md 5/C04",
@@ -166,7 +181,10 @@ check("C04", "DESIGN.md 5/C04",
       "that any selection / duplication / reordering of follow-up rows yields the corresponding rows; every case is executed with the "
       "attached and the pickled spec through both entry points and compared cell for cell. For scale / standardize / poly / bs / cr / cc / "
       "C(contr.poly, diff, scaled helmert) / elementwise functions, random histories are executed and TLC checks that the logged "
-      "row-correspondence witnesses contain the correspondence the model requires.",
+      "row-correspondence witnesses contain the correspondence the model requires. ReuseHistory.tla models one spec object over a history of calls "
+      "(recorded bounds / mean / levels, training frames whose minimum, maximum or mean is exactly zero, follow-ups with and without the rows that carry "
+      "the recorded extremes, pickling before any call): laws Frozen, HistoryFree, RowsOfTheFit; two design errors (a zero statistic treated as missing; "
+      "re-learning) are refuted by TLC; every history is replayed under 19 spellings of its transform family. Specs of numpy and sparse output are replayed too.",
       "Trusted: numpy.allclose(1e-9) as the float row-equality predicate of the relation leg (stated limit: no claim about accuracy). lag() "
       "is excluded from row-locality as the property says.")
 
@@ -176,7 +194,7 @@ check("C09", "DESIGN.md 5/C09",
       "TLC proves on every (training frame, follow-up frame, formula) in the bound that a kind change is an encoding error, that reuse never "
       "adds, removes or renames a column (absent levels keep all-zero columns) and that unseen levels are announced; each pair is executed "
       "through spec.get_model_matrix and model_matrix(spec, ...), with the pickled spec too, comparing exception class, warning category, "
-      "names and cells with the model.",
+      "names and cells with the model, for recorded specs of pandas, numpy and sparse output.",
       "Trusted: gamma/alpha. Numeric data under C() counts as unseen levels, not as a kind change (DESIGN section 11), and is not enumerated.")
 
 check("C11", "DESIGN.md 5/C11",
@@ -200,7 +218,9 @@ check("C13", "DESIGN.md 5/C13",
       "polynomial columns are orthogonal, monic and orthogonal to the constant, and that applying recorded state is row-local; the real "
       "transforms are executed on every case (direct calls with _state where the recorded state must win over contradictory arguments, "
       "model_matrix and spec reuse on follow-up vectors, NaN propagation) and compared with (exact rational)/sqrt(exact rational); "
-      "exp10/exp2/log10/log2 are exact on k = 0..8 and each function inverts its partner on a grid.",
+      "exp10/exp2/log10/log2 are exact on k = 0..8 and each function inverts its partner on a grid; the elementwise family of PolyScale.tla defines "
+      "b^k exactly for integer k of both signs (homomorphism, reciprocal, monotonicity, log_b(b^k) = k model-checked for k in -127..127) and the "
+      "replay holds the exponents in every integer dtype wide enough, as numpy and as nullable pandas columns.",
       "Stated limit: 32-bit rationals keep the exact grid small (length <= 4-5 over -2..3); 'any magnitude' is outside this family's reach. "
       "Trusted: sqrt and a 1e-9 comparison in the harness.")
 
@@ -224,7 +244,9 @@ check("C18", "DESIGN.md 5/C18",
       "step the result (bytes of the numeric payload, column order, dropped rows) and every live object (input frames, the formula, one "
       "shared un-materialised spec, the spec obtained earlier); Trace_Purity accepts a history iff every step is a Session step (same "
       "operation -> same result, also with respect to a canonical single-operation run under another seed; no live object changes), and "
-      "the three logs must be identical.",
+      "the three logs must be identical. A second family of operations builds the same formula under two contexts that bind the same called names to "
+      "a stateful built-in in one and to a plain function in the other (and reuses the spec at once): law Indep (every call returns what it returns "
+      "as the only call of a fresh process); the design error of memoising a name's statefulness process-wide is refuted by TLC.",
       "Trusted: the structural fingerprints. Bit-identity is compared within one interpreter version, not across output types.")
 
 check("C12", "DESIGN.md 5/C12",
